@@ -127,7 +127,11 @@ func hammer(b *B, in []byte) {
 // corpusSeeds loads the byte slices of the project's fuzz corpus.
 func corpusSeeds() [][]byte {
 	var out [][]byte
-	files, _ := filepath.Glob("/repo/testdata/fuzz/FuzzUpdateDecoder_Decode/*")
+	root := os.Getenv("VERIF_REPO")
+	if root == "" {
+		root = "/repo"
+	}
+	files, _ := filepath.Glob(root + "/testdata/fuzz/FuzzUpdateDecoder_Decode/*")
 	for _, f := range files {
 		data, err := os.ReadFile(f)
 		if err != nil {
